@@ -199,6 +199,10 @@ func (e *Exec) block(what string, pred func() bool) {
 		cur.what = what
 		next := e.pickOther(cur)
 		if next == nil {
+			if e.fireTimer() {
+				cur.blocked = nil
+				continue
+			}
 			cur.blocked = nil
 			panic(deadlock{fmt.Sprintf("T%d blocked on %s", cur.id, what)})
 		}
@@ -241,6 +245,20 @@ func (e *Exec) spawn(fnv Value, args []Value) {
 				}()
 				next = e.pickOther(t)
 			}()
+			if e.Sc.fault != nil {
+				giveMain(e.Sc.fault)
+				return
+			}
+			for next == nil && e.fireTimer() {
+				func() {
+					defer func() {
+						if r := recover(); r != nil {
+							e.Sc.fault = r
+						}
+					}()
+					next = e.pickOther(t)
+				}()
+			}
 			if e.Sc.fault != nil {
 				giveMain(e.Sc.fault)
 				return
@@ -502,13 +520,21 @@ func (e *Exec) keyEq(a, b Value) *Term {
 
 // ---- context ----
 
+// CtxV models context.Context: cancellation tree, values, deadlines. Deadlines do not fire while
+// some thread can still run; when every thread is blocked the earliest live timer fires (the same
+// rule testing/synctest applies to the native replay).
 type CtxV struct {
-	parent *CtxV
-	done   *ChanObj
-	err    IfaceV
-	key    Value
-	val    Value
-	isVal  bool
+	parent   *CtxV
+	children []*CtxV
+	done     *ChanObj // nil: not cancellable by itself (Background, WithValue)
+	err      IfaceV
+	cause    IfaceV
+	key      Value
+	val      Value
+	isVal    bool
+	deadline *Term // non-nil: WithTimeout / WithDeadline
+	dlCause  IfaceV
+	seq      int
 }
 
 func (e *Exec) ctxOf(v Value) *CtxV {
@@ -520,6 +546,28 @@ func (e *Exec) ctxOf(v Value) *CtxV {
 	return nil
 }
 
+func (e *Exec) ctxType() types.Type { return types.NewPointer(e.namedType("context", "cancelCtx")) }
+
+func (e *Exec) ctxIface(c *CtxV) IfaceV { return IfaceV{T: e.ctxType(), V: c} }
+
+func (e *Exec) ctxNew(parent *CtxV, cancellable bool) *CtxV {
+	e.ctxSeq++
+	c := &CtxV{parent: parent, seq: e.ctxSeq}
+	if cancellable {
+		c.done = &ChanObj{cap: 0, elem: types.NewStruct(nil, nil)}
+	}
+	if parent != nil {
+		parent.children = append(parent.children, c)
+		// born cancelled if an ancestor already is
+		if err := e.ctxErr(parent); err.T != nil && c.done != nil {
+			c.done.closed = true
+			c.err = err
+			c.cause = e.ctxCause(parent)
+		}
+	}
+	return c
+}
+
 func (e *Exec) ctxErr(c *CtxV) IfaceV {
 	for x := c; x != nil; x = x.parent {
 		if x.done != nil && x.done.closed {
@@ -529,17 +577,71 @@ func (e *Exec) ctxErr(c *CtxV) IfaceV {
 	return IfaceV{}
 }
 
+func (e *Exec) ctxCause(c *CtxV) IfaceV {
+	for x := c; x != nil; x = x.parent {
+		if x.done != nil && x.done.closed {
+			if x.cause.T != nil {
+				return x.cause
+			}
+			return x.err
+		}
+	}
+	return IfaceV{}
+}
+
+func (e *Exec) ctxGlobalErr(name string) IfaceV {
+	g := e.prog.ImportedPackage("context").Var(name)
+	v := e.load(PtrV{Obj: e.global(g)}).(IfaceV)
+	if v.T == nil {
+		v = e.mkErrorMsg(StrV{C: "context " + name}, nil)
+		e.store(PtrV{Obj: e.global(g)}, v)
+	}
+	return v
+}
+
+// ctxFinish marks c and all its descendants done.
+func (e *Exec) ctxFinish(c *CtxV, err, cause IfaceV) {
+	if c.done != nil {
+		if c.done.closed {
+			return
+		}
+		c.done.closed = true
+		c.err = err
+		c.cause = cause
+	}
+	for _, ch := range c.children {
+		e.ctxFinish(ch, err, cause)
+	}
+}
+
 func (e *Exec) ctxCancel(c *CtxV) {
-	if c.done.closed {
-		return
+	e.ctxFinish(c, e.ctxGlobalErr("Canceled"), IfaceV{})
+}
+
+// fireTimer: called when no thread can run. Fires the earliest live deadline; false if there is none.
+func (e *Exec) fireTimer() bool {
+	var best *CtxV
+	var bestOff uint64
+	for _, c := range e.timers {
+		if c.done.closed {
+			continue
+		}
+		_, off := splitAddConst(c.deadline)
+		if best == nil || sext(off, 64) < sext(bestOff, 64) {
+			best, bestOff = c, off
+		}
 	}
-	c.done.closed = true
-	g := e.prog.ImportedPackage("context").Var("Canceled")
-	c.err = e.load(PtrV{Obj: e.global(g)}).(IfaceV)
-	if c.err.T == nil { // context's init is not interpreted in the spike: give Canceled an identity once
-		c.err = e.mkError(nil)
-		e.store(PtrV{Obj: e.global(g)}, c.err)
+	if best == nil {
+		return false
 	}
+	// the clock jumps to the deadline (never backwards)
+	e.now()
+	late := e.P.Cmp("bvsgt", best.deadline, e.P.BinBV("bvadd", e.clock0, e.clockAdv))
+	e.clockAdv = e.P.Ite(late, e.P.BinBV("bvsub", best.deadline, e.clock0), e.clockAdv)
+	cause := best.dlCause
+	e.ctxFinish(best, e.ctxGlobalErr("DeadlineExceeded"), cause)
+	e.timerFires++
+	return true
 }
 
 type NativeFn func(args []Value) Value
